@@ -394,6 +394,13 @@ func c06History(r *rand.Rand, n int, script []func(ov dom.OverlayDocument, ref *
 		if !reflect.DeepEqual(append([]string{}, ov.LayerNames()...), append([]string{}, ref.names...)) && !(len(ov.LayerNames()) == 0 && len(ref.names) == 0) {
 			fail = append(fail, fmt.Sprintf("LayerNames() = %v, first-write order = %v", ov.LayerNames(), ref.names))
 		}
+		// the name list handed out is the caller's copy: reordering or overwriting it changes nothing
+		if ns := ov.LayerNames(); len(ns) >= 2 {
+			ns[0], ns[len(ns)-1] = ns[len(ns)-1], "scribbled-by-the-caller"
+			if !reflect.DeepEqual(append([]string{}, ov.LayerNames()...), append([]string{}, ref.names...)) {
+				fail = append(fail, fmt.Sprintf("after the caller reordered the slice returned by LayerNames(), LayerNames() = %v, first-write order = %v", ov.LayerNames(), ref.names))
+			}
+		}
 		// snapshot discipline
 		if r != nil && r.Intn(4) == 0 {
 			want := map[string]any{}
@@ -485,7 +492,7 @@ func init() {
 	}
 	register(&Prop{
 		ID:   "C06",
-		Rule: "histories of 1-30 overlay operations over 3 layer names and a pool of path-safe paths (indices 0-4, chains to depth 2): Put (leaf / list / container incl. leafless containers), Add (one source container sometimes added to two layers), Populate (root or path), interleaved with Lookup(layer), LookupAny, Search, Walk (complete and with an early stop), Merged(default / append) + Serialize; writes that would descend through an existing scalar or list are skipped (outside the property); values carry no nulls. After every write: LayerNames() and Layers() vs the Coq model; reads vs the model; Go side: per-layer plain reference, first-write order, first-hit, fold of the reference merge, Layers() snapshots re-read after all later writes, OverlayDocs(ov,ov) empty. Non-trivial: >= 2 layers written. Distinct by Gallina term.",
+		Rule: "histories of 1-30 overlay operations over 3 layer names and a pool of path-safe paths (indices 0-4, chains to depth 2): Put (leaf / list / container incl. leafless containers), Add (one source container sometimes added to two layers), Populate (root or path), interleaved with Lookup(layer), LookupAny, Search, Walk (complete and with an early stop), Merged(default / append) + Serialize; writes that would descend through an existing scalar or list are skipped (outside the property); values carry no nulls. After every write: LayerNames() and Layers() vs the Coq model; reads vs the model; Go side: per-layer plain reference, first-write order, first-hit, fold of the reference merge, Layers() snapshots re-read after all later writes, OverlayDocs(ov,ov) empty. Non-trivial: >= 2 layers written. Distinct by Gallina term. After every write the slice returned by LayerNames() is reordered and overwritten by the caller.",
 		Corpus: func() []Case {
 			s := shared()
 			return []Case{
